@@ -38,6 +38,19 @@ def rand_dep(rng, ids, nested_dep=False):
             d["script"] = [{"src": "s%s_%d.js" % (n, k)} for k in range(rng.randint(1, 2))]
             if rng.random() < 0.3:
                 d["script"][0]["defer"] = ""
+            if rng.random() < 0.3:
+                # several optional attributes: their order in the emitted tag is the order given
+                extra = rng.sample([("async", ""), ("type", "module"), ("integrity", "sha-x"), ("crossorigin", "anonymous"), ("referrerpolicy", "origin"),
+                                    ("fetchpriority", "low")], rng.randint(2, 4))
+                item = d["script"][-1] if isinstance(d["script"], list) else d["script"]
+                pos = rng.random() < 0.5
+                new = dict(extra[:1]) if pos else {}
+                new.update(item)
+                new.update(dict(extra[1:] if pos else extra))
+                if isinstance(d["script"], list):
+                    d["script"][-1] = new
+                else:
+                    d["script"] = new
             if rng.random() < 0.2:
                 d["script"] = d["script"][0]
         if rng.random() < 0.5:
